@@ -13,7 +13,7 @@ ID = 'C16'
 LEVEL = 'exploration'
 RULE = ('Engine A: every table over n <= 3 | 4 geos with rows from the eight 0/1 triples (8^n), geo as column or as '
         'index, integer or string IDs; malformed variants of every valid 2-geo table (each required column missing, '
-        'duplicate IDs incl. 1 vs \'1\', entries 2, -1, 0.5, \'1\', NaN, duplicate column names); for every accepted '
+        'duplicate IDs incl. 1 vs \'1\', entries 2, -1, 0.5, \'1\', NaN in every value column and row, duplicate column names); for every accepted '
         'table EVERY ordered subset of its geos including the empty one, indices False/True. Oracle: acceptance <=> '
         'reference validity predicate, rejection by ValueError; the seven classes partition the subset, each geo in '
         'the class its row encodes, all/c/t/x consistent, positions refer to the given order. Non-trivial = accepted '
@@ -35,13 +35,21 @@ def cases(tier, seed):
     out = []
     for n in range(1, nmax + 1):
         for rows in itertools.product(relig.ROWS8, repeat=n):
-            for mode in (('col', 'str'), ('index', 'int')) if n <= 3 else (('col', 'str'),):
+            modes = (('col', 'str'), ('index', 'int')) if n <= 3 else (('col', 'str'),)
+            if n <= 2:
+                modes += (('col', 'int'), ('index', 'str'))
+            for mode in modes:
                 out.append({'kind': 'table', 'rows': [list(r) for r in rows], 'geo': mode[0], 'ids': mode[1]})
     base = [[1, 1, 1], [1, 0, 0]]
     for mal in ('no-geo', 'no-control', 'no-treatment', 'no-exclude', 'dup-ids', 'dup-ids-1-vs-str1', 'entry-2', 'entry--1',
                 'entry-0.5', 'entry-str1', 'entry-nan', 'dup-column', 'entry-True', 'entry-1.0'):
         for rows in ([[1, 1, 1], [1, 0, 0]], [[0, 1, 1], [1, 1, 0]], [[0, 0, 1], [0, 1, 0]]):
             out.append({'kind': 'malformed', 'rows': rows, 'what': mal})
+            if mal.startswith('entry-'):      # the bad entry in every value column and in every row
+                for col in ('control', 'treatment', 'exclude'):
+                    for pos in (0, 1):
+                        if (col, pos) != ('control', 0):
+                            out.append({'kind': 'malformed', 'rows': rows, 'what': mal, 'col': col, 'pos': pos})
     return out
 
 
@@ -111,9 +119,10 @@ def run_malformed(case):
         df = pd.concat([df, df[['control']]], axis=1)
     elif what.startswith('entry-'):
         v = {'2': 2, '-1': -1, '0.5': 0.5, 'str1': '1', 'nan': np.nan, 'True': True, '1.0': 1.0}[what[6:]]
-        col = df['control'].astype(object)
-        col.iloc[0] = v
-        df['control'] = col
+        cname = case.get('col', 'control')
+        col = df[cname].astype(object)
+        col.iloc[case.get('pos', 0)] = v
+        df[cname] = col
         if what in ('entry-True', 'entry-1.0'):
             expect = 'either'     # True == 1 and 1.0 == 1: in {0,1} by value; left unspecified
     try:
